@@ -243,7 +243,10 @@ def gtf_id_errors(path, ref_transcripts=None, ref_genes=None, exon_table=None, l
 READ_SETS = {"all": None,
              "R0": ("k1", "k4", "na", "nd", "ig1", "h1", "f1", "f2"),
              "R1": ("k1", "k4", "nb", "ig2", "h2", "f1"),
-             "R2": ("k1", "k4", "nc", "ne", "ig1", "ig2", "f2")}
+             "R2": ("k1", "k4", "nc", "ne", "ig1", "ig2", "f2"),
+             # R3 creates ids on the second chromosome only, R4 then builds novel models on both (per-chromosome reservations differ)
+             "R3": ("k1", "k4", "nd"),
+             "R4": ("k1", "k4", "na", "ig2")}
 
 
 def pipeline_case(args):
@@ -332,6 +335,9 @@ def run(ctx):
     sets = ("R0", "R1", "R2")
     for hist in itertools.product(sets, repeat=2 if quick else 3):
         for s in (["all"] if quick else ["all", "default_ont"]):
+            jobs.append(("extra", s, hist, ctx.scratch))
+    for hist in (("R3", "R4"), ("R4", "R3"), ("R3", "R4", "R0")):
+        for s in ("all", "default_ont"):
             jobs.append(("extra", s, hist, ctx.scratch))
     nruns = 0
     novel = 0
